@@ -60,3 +60,50 @@ def obligations_for(prop, repo, cdb):
             return not bad, {"backend": "z3-5.1", "facts": [n for n, _, _ in res], "failed": bad}
         out.append(("ground:prelude-derived-axioms-follow-from-base", derived))
     return out
+
+
+def _version_tables(repo):
+    import ast
+    m = repo.module("dissect.cobaltstrike.version")
+    return {n: ast.literal_eval(m.assigns[n]) for n in ("MAX_ENUM_TO_VERSION", "PE_EXPORT_STAMP_TO_VERSION")}
+
+
+_MONTHS = {m: i + 1 for i, m in enumerate("Jan Feb Mar Apr May Jun Jul Aug Sep Oct Nov Dec".split())}
+
+
+def parse_version_text(text):
+    """independent reading of "Cobalt Strike <major>.<minor>[.<patch>] (<Mon> <dd>, <yyyy>)" """
+    import re
+    mm = re.fullmatch(r"Cobalt Strike (\d+)\.(\d+)(?:\.(\d+))? \((\w{3}) (\d{2}), (\d{4})\)", text)
+    if not mm:
+        return None
+    ver = (int(mm.group(1)), int(mm.group(2)), int(mm.group(3) or 0))
+    return ver, (int(mm.group(6)), _MONTHS[mm.group(4)], int(mm.group(5)))
+
+
+def _monotone(repo, table):
+    def run():
+        t = _version_tables(repo)[table]
+        keys = sorted(t)
+        bad = []
+        for k in keys:
+            if parse_version_text(t[k]) is None:
+                bad.append(("unparsable", k, t[k]))
+        for a, b in zip(keys, keys[1:]):
+            pa, pb = parse_version_text(t[a]), parse_version_text(t[b])
+            if pa and pb and not (pa[0] <= pb[0] and pa[1] <= pb[1]):
+                bad.append(("not monotone", a, t[a], b, t[b]))
+        return not bad, {"backend": "ground (literal table, all adjacent key pairs => all pairs by transitivity)",
+                         "entries": len(keys), "failed": bad[:5]}
+    return run
+
+
+_old2 = obligations_for
+
+
+def obligations_for(prop, repo, cdb):
+    out = _old2(prop, repo, cdb)
+    if prop == "C18":
+        out.append(("ground:table-monotone:MAX_ENUM_TO_VERSION", _monotone(repo, "MAX_ENUM_TO_VERSION")))
+        out.append(("ground:table-monotone:PE_EXPORT_STAMP_TO_VERSION", _monotone(repo, "PE_EXPORT_STAMP_TO_VERSION")))
+    return out
